@@ -422,6 +422,7 @@ def run(ctx) -> None:
                 rep.add("C11.R3", f"{ch.qname}:returns-after-success", not bad, f"{ch.module.rel}:{ch.lineno}", "returns outputs only after the executor returned normally or a cache hit" if not bad else "can return outputs although the executor did not return normally")
 
     check_state_only_grows(ctx, "C11.R3")
+    check_step_outcome_single_source(ctx, "C11.R6")
     check_stop_iteration_kept(ctx, "C11.R1", reach)
 
     # ---- R4 ---------------------------------------------------------------
@@ -459,6 +460,30 @@ def run(ctx) -> None:
                     rep.add("C11.R4", inst, True, f"{f.module.rel}:{n.lineno}", "re-raises an exception object taken from the gathered results")
                 else:
                     rep.bad("C11.R4", inst, f"{f.module.rel}:{n.lineno}", "unrecognised raise form on the map error path")
+
+
+def check_step_outcome_single_source(ctx, rule: str) -> None:
+    """The outcome of a concurrent step is the first exceptional result in ready order, whatever its kind: one variable
+    records it and every raise after the loop raises (or wraps) that variable — a second variable that takes precedence
+    (e.g. 'a pause signal wins') lets a sibling's pause hide the exception a node raised earlier in the order."""
+    db, rep = ctx.db, ctx.rep
+    for ss in superstep_funcs(db):
+        if not ss.is_async:
+            continue
+        loops = [lp for lp in walk_local(ss.node) if isinstance(lp, ast.For) and any(isinstance(t, ast.If) and "isinstance" in src(t.test) and "Exception" in src(t.test) for t in lp.body)]
+        if not loops:
+            raise AnalysisError("result loop of the async superstep not found")
+        lp = loops[0]
+        recs = {}
+        for x in ast.walk(lp):
+            if isinstance(x, ast.Assign) and isinstance(x.targets[0], ast.Name) and isinstance(x.value, ast.Name) and isinstance(lp.target, (ast.Name, ast.Tuple)) and x.value.id in {z.id for z in ast.walk(lp.target) if isinstance(z, ast.Name)}:
+                guard = next((a for a in ancestors(x) if isinstance(a, ast.If) and "isinstance" in src(a.test)), None)
+                recs[x.targets[0].id] = src(guard.test) if guard is not None else "?"
+        raises = [r for r in walk_local(ss.node) if isinstance(r, ast.Raise) and r.lineno > lp.end_lineno and r.exc is not None]
+        raised = {z.id for r in raises for z in ast.walk(r.exc) if isinstance(z, ast.Name)} & set(recs)
+        wide = [v for v, g in recs.items() if "BaseException" in g]
+        ok = len(recs) == 1 and len(wide) == 1 and raised == set(recs)
+        rep.add(rule, f"{ss.qname}:step-outcome-single-source", ok, f"{ss.module.rel}:{lp.lineno}", f"one variable ('{wide[0]}') records the first exceptional result of any kind in ready order; every raise after the loop uses it" if ok else f"the step's exceptional results are recorded in {sorted(recs)} under {sorted(set(recs.values()))}: the outcome is no longer the first exceptional result in ready order — a pause raised by a sibling nested graph can win over the exception a node raised before it, and run() returns PAUSED with error=None instead of raising / reporting the node's exception")
 
 
 def check_stop_iteration_kept(ctx, rule: str, reach: set[FuncInfo]) -> None:
